@@ -73,6 +73,7 @@ func checkRun(c runCase) (h.Info, error) {
 	old := runtime.GOMAXPROCS(c.Procs)
 	defer runtime.GOMAXPROCS(old)
 	curSub, curCase = subName, c
+	defer releaseContexts()
 	elapsed, err := mineAndJudge(c)
 	if err != nil {
 		return info, err
@@ -105,8 +106,10 @@ func mineAndJudge(c runCase) (time.Duration, error) {
 		return 0, fmt.Errorf("PRECONDITION: target class")
 	}
 
+	// the context of an uncancelled call stays uncancelled until the caller has counted goroutines:
+	// a goroutine that Mine leaves waiting for the context is a leak although it would end with it
 	ctx, cancel := context.WithCancel(context.Background())
-	defer cancel()
+	pendingCancels = append(pendingCancels, cancel)
 	cancelled := make(chan struct{})
 	doCancel := func() { cancel(); close(cancelled) }
 	switch c.Cancel {
@@ -190,8 +193,19 @@ func mineAndJudge(c runCase) (time.Duration, error) {
 	return elapsed, nil
 }
 
+// contexts of the calls made since the last goroutine count (released after it)
+var pendingCancels []context.CancelFunc
+
+func releaseContexts() {
+	for _, c := range pendingCancels {
+		c()
+	}
+	pendingCancels = nil
+}
+
 // awaitNoGoroutines: every goroutine Mine started has finished or finishes immediately.
 func awaitNoGoroutines(what string, elapsed time.Duration) error {
+	defer releaseContexts()
 	deadline := time.Now().Add(leakBound)
 	for {
 		n, dump := powGoroutines()
@@ -220,6 +234,7 @@ func checkSeq(c seqCase) (h.Info, error) {
 	defer runtime.GOMAXPROCS(old)
 	info := h.Info{Class: fmt.Sprintf("sequence/procs=%d", c.Procs), NT: true}
 	curSub, curCase = "back-to-back-sequences", c
+	defer releaseContexts()
 	afterCancelled := false
 	var total time.Duration
 	for i, st := range c.Steps {
@@ -292,6 +307,7 @@ func TestManyCalls(t *testing.T) {
 		Check: func(c manyCase) (h.Info, error) {
 			info := h.Info{Class: fmt.Sprintf("v%d/%d-calls", c.Version, c.Calls), NT: true}
 			curSub, curCase = "many-successful-calls", c
+			defer releaseContexts()
 			var total time.Duration
 			for i := 0; i < c.Calls; i++ {
 				el, err := mineAndJudge(runCase{Version: c.Version, Workers: c.Workers, Procs: runtime.GOMAXPROCS(0), Target: c.Target, Cancel: "never", Data: []byte{byte(i), byte(i >> 8)}})
